@@ -106,6 +106,7 @@ type Exec struct {
 	Inlined   map[string]bool
 	Havocked  map[string]bool
 	Assumed   map[string]bool
+	GroupsSeen map[string]bool // proof groups of callee preconditions met at call sites (they need a group pass)
 	depth     int
 	errsGhost *Term
 	errTok    *Term // token argument of the last NotifyErrorListeners call
@@ -166,7 +167,7 @@ func NewExec(p *Program, fn *ssa.Function) *Exec {
 	return &Exec{P: p, Fn: fn, C: p.ContractOf(fn), vals: map[ssa.Value]Val{}, counters: map[string]int{},
 		outState: map[*ssa.BasicBlock]*State{}, reach: map[*ssa.BasicBlock]*Term{}, edgeCond: map[[2]int]*Term{},
 		loops: map[*ssa.BasicBlock]*loopInfo{}, iters: map[ssa.Value]*iterInfo{}, debugVals: map[string][]debugRef{},
-		Inlined: map[string]bool{}, Havocked: map[string]bool{}, Assumed: map[string]bool{}, params: map[string]Val{}, paramTy: map[string]types.Type{}}
+		Inlined: map[string]bool{}, Havocked: map[string]bool{}, Assumed: map[string]bool{}, GroupsSeen: map[string]bool{}, params: map[string]Val{}, paramTy: map[string]types.Type{}}
 }
 
 func (e *Exec) assume(t *Term) {
@@ -240,6 +241,9 @@ func (e *Exec) oblige(kind, detail string, cond *Term, props []string, src strin
 		return
 	}
 	r := e.root()
+	if activeGroup != "" && kind != "post" && kind != "pre" && kind != "inv-entry" && kind != "inv-preserved" {
+		return // safety, frame, termination and vacuity obligations belong to the main pass
+	}
 	goal := Implies(e.guard(), cond)
 	if cond == True && (kind == "post" || kind == "inv-preserved") && e.guard() != False && !e.perPathPosts {
 		// vacuity guard: a contract clause that folds to `true` while it is being built says nothing
@@ -440,6 +444,8 @@ func (e *Exec) run() {
 		}
 		if e.C != nil {
 			for _, rq := range e.C.Requires {
+				// (a precondition is an assumption of the function in every pass; its proof group only says in which pass
+				// of a CALLER it is proved)
 				t := e.evalContractBool(rq.Expr, e.entryEnv(), "requires")
 				e.assume(t)
 			}
@@ -1937,6 +1943,9 @@ func (e *Exec) finish() {
 			e.exitCond, e.curReach = r.cond, r.cond
 			penv := e.exitEnv()
 			for i, en := range e.C.Ensures {
+				if !clauseOn(en) || !clauseEmit(en) {
+					continue
+				}
 				t := e.evalContractBool(en.Expr, penv, "ensures")
 				label := en.Label
 				if label == "" {
@@ -1958,7 +1967,7 @@ func (e *Exec) finish() {
 			if label == "" {
 				label = fmt.Sprintf("%d", i+1)
 			}
-			if !nonTrivial[label] {
+			if !nonTrivial[label] && clauseOn(en) && clauseEmit(en) {
 				// vacuity guard: the clause folds to `true` on every return path
 				e.root().notes = append(e.root().notes, fmt.Sprintf("VACUOUS? clause post:%s of %s is syntactically true on every return path (%s)", label, FuncKey(e.Fn), en.Src))
 			}
@@ -1966,6 +1975,9 @@ func (e *Exec) finish() {
 		e.exit, e.results, e.exitCond, e.curReach, e.curState = mExit, mResults, mCond, mReach, mState
 	} else {
 		for i, en := range e.C.Ensures {
+			if !clauseOn(en) || !clauseEmit(en) {
+				continue
+			}
 			t := e.evalContractBool(en.Expr, env, "ensures")
 			label := en.Label
 			if label == "" {
